@@ -12,6 +12,7 @@ import (
 	"encoding/json"
 	"fmt"
 	"math"
+	"math/bits"
 	"reflect"
 	"sort"
 	"strings"
@@ -58,6 +59,7 @@ type c14Fn interface {
 type c14FnTL2 interface {
 	ReadResultTL1WriteResultTL2(tctx *basictl.TL2WriteContext, r []byte, w []byte) ([]byte, []byte, error)
 	ReadResultTL2WriteResultTL1(tctx *basictl.TL2ReadContext, r []byte, w []byte) ([]byte, []byte, error)
+	ReadResultTL2WriteResultJSON(tctx *basictl.TL2ReadContext, jctx *basictl.JSONWriteContext, r []byte, w []byte) ([]byte, []byte, error)
 }
 
 type c14Item struct {
@@ -77,6 +79,7 @@ type c14Src interface {
 	i32() int32
 	i64() int64
 	f64() float64
+	mask(v uint32, known uint32) uint32 // a fields mask: v is what the stock generator drew, known the bits the schema has
 }
 
 // bijective mixer (murmur3 finaliser): rapid's integers are heavily biased to small values, the
@@ -98,27 +101,116 @@ var c14SpecialFloats = []float64{
 }
 
 type c14Rec struct {
-	t         *rapid.T
+	t         *rapid.T // nil for the deterministic sparse enumeration
 	tape      []uint64
 	noNegZero bool // while filling a function result (its floats cannot be inspected afterwards)
+
+	// sparse mode: every draw is zero (default union constructor, empty vectors and strings, zero
+	// numbers) except a few fields-mask bits and, optionally, a few draws.
+	sparse bool
+	lazy   bool          // sparse plan drawn from rapid while filling (else: bits below)
+	bits   map[int][]int // mask call ordinal -> ordinals of the known bits to set
+	nMask  int
+	nDraw  int
+	knowns []uint32 // known-bit masks in call order (what the enumeration iterates over)
+}
+
+// c14Zero: in sparse mode a draw is 0 unless rapid says otherwise (lazy mode only, rarely).
+func (r *c14Rec) zero() bool {
+	r.nDraw++
+	if !r.sparse {
+		return false
+	}
+	if r.lazy && r.t != nil && rapid.IntRange(0, 15).Draw(r.t, "nz") == 7 {
+		return false
+	}
+	return true
+}
+
+func c14NthBit(known uint32, ord int) uint32 {
+	n := bits.OnesCount32(known)
+	if n == 0 {
+		return 0
+	}
+	ord %= n
+	for i := 0; i < 32; i++ {
+		if known&(1<<i) != 0 {
+			if ord == 0 {
+				return 1 << i
+			}
+			ord--
+		}
+	}
+	return 0
+}
+
+func (r *c14Rec) mask(v uint32, known uint32) uint32 {
+	call := r.nMask
+	r.nMask++
+	r.knowns = append(r.knowns, known)
+	var m uint32
+	switch {
+	case r.sparse && !r.lazy:
+		for _, o := range r.bits[call] {
+			m |= c14NthBit(known, o)
+		}
+	case r.sparse:
+		k := 0
+		if call == 0 {
+			k = rapid.IntRange(1, 3).Draw(r.t, "sparsebits")
+		} else if rapid.IntRange(0, 9).Draw(r.t, "sparsemore") == 5 {
+			k = 1
+		}
+		for i := 0; i < k && known != 0; i++ {
+			m |= c14NthBit(known, rapid.IntRange(0, 31).Draw(r.t, "bitord"))
+		}
+	default:
+		// The stock generator sets the first few known bits far more often than the later ones.
+		switch rapid.IntRange(0, 3).Draw(r.t, "maskmode") {
+		case 0:
+			m = v
+		case 1:
+			m = known
+		default:
+			m = c14Mix32(rapid.Uint32().Draw(r.t, "maskbits")) & known
+		}
+	}
+	r.tape = append(r.tape, uint64(m))
+	return m
 }
 
 func (r *c14Rec) u32() uint32 {
+	if r.zero() {
+		r.tape = append(r.tape, 0)
+		return 0
+	}
 	v := c14Mix32(rapid.Uint32().Draw(r.t, "u32"))
 	r.tape = append(r.tape, uint64(v))
 	return v
 }
 func (r *c14Rec) i32() int32 {
+	if r.zero() {
+		r.tape = append(r.tape, 0)
+		return 0
+	}
 	v := rapid.Int32().Draw(r.t, "i32")
 	r.tape = append(r.tape, uint64(uint32(v)))
 	return v
 }
 func (r *c14Rec) i64() int64 {
+	if r.zero() {
+		r.tape = append(r.tape, 0)
+		return 0
+	}
 	v := rapid.Int64().Draw(r.t, "i64")
 	r.tape = append(r.tape, uint64(v))
 	return v
 }
 func (r *c14Rec) f64() float64 {
+	if r.zero() {
+		r.tape = append(r.tape, 0)
+		return 0
+	}
 	var v float64
 	switch rapid.IntRange(0, 3).Draw(r.t, "fkind") {
 	case 0:
@@ -154,6 +246,9 @@ func (p *c14Play) u32() uint32  { return uint32(p.next()) }
 func (p *c14Play) i32() int32   { return int32(uint32(p.next())) }
 func (p *c14Play) i64() int64   { return int64(p.next()) }
 func (p *c14Play) f64() float64 { return math.Float64frombits(p.next()) }
+func (p *c14Play) mask(v uint32, known uint32) uint32 {
+	return uint32(p.next()) & known // only bits the schema knows (what the generated setters can produce)
+}
 
 // c14Rand is the basictl.Rand handed to the generated FillRandom code.
 type c14Rand struct{ s c14Src }
@@ -171,17 +266,8 @@ func c14NewRG(s c14Src) *basictl.RandGenerator {
 			}
 			return v
 		},
-		// The stock generator sets the first few known bits far more often than the later ones.
 		// Only bits the schema knows are ever set (what the setters of real callers can produce).
-		FieldMaskHandler: func(v uint32, known uint32) uint32 {
-			switch s.u32() % 4 {
-			case 1:
-				return known
-			case 2, 3:
-				return s.u32() & known
-			}
-			return v
-		},
+		FieldMaskHandler: s.mask,
 	})
 }
 
@@ -253,7 +339,12 @@ func c14ReflFill(v reflect.Value, s c14Src, depth int) {
 		}
 	case reflect.Struct:
 		for i := 0; i < v.NumField(); i++ {
-			c14ReflFill(c14Settable(v.Field(i)), s, depth+1)
+			f := c14Settable(v.Field(i))
+			if f.Kind() == reflect.Uint32 && strings.Contains(v.Type().Field(i).Name, "Mask") {
+				f.SetUint(uint64(s.mask(s.u32()&7, 7))) // the schemas of these trees use the low bits only
+				continue
+			}
+			c14ReflFill(f, s, depth+1)
 		}
 	}
 }
@@ -461,6 +552,7 @@ type c14Case struct {
 	TagXor  uint32    `json:"tagxor"`
 	Cuts    []uint32  `json:"cuts,omitempty"`    // extra (unaligned) truncation points, taken modulo the length
 	Garbage []byte    `json:"garbage,omitempty"` // bytes that follow the object in the read buffer
+	Sparse  string    `json:"sparse,omitempty"`  // how a sparse value was built ("zero", "c0:b2", "c0:b1+b3", "rapid")
 }
 
 var c14StrPieces = []string{
@@ -535,6 +627,10 @@ func c14GenString(t *rapid.T) []byte {
 func c14Gen(it *c14Item) *rapid.Generator[c14Case] {
 	return rapid.Custom(func(t *rapid.T) c14Case {
 		rec := &c14Rec{t: t}
+		// rapid favours the ends of a range: 0 and 2 are dense fills, 1 is sparse -> draw from a list
+		if rapid.SampledFrom([]bool{false, true, false}).Draw(t, "sparse") {
+			rec.sparse, rec.lazy = true, true
+		}
 		x := it.New()
 		c14Fill(x, rec)
 		if _, ok := x.(c14Fn); ok {
@@ -544,6 +640,9 @@ func c14Gen(it *c14Item) *rapid.Generator[c14Case] {
 			_, _ = x.(c14Fn).FillRandomResultTL1(rg, nil)
 		}
 		c := c14Case{Fam: it.Fam, Item: it.Name, Tape: rec.tape}
+		if rec.sparse {
+			c.Sparse = "rapid"
+		}
 		if n := c14CountStrings(x); !it.Enum && n > 0 && rapid.IntRange(0, 2).Draw(t, "widen") == 0 {
 			k := rapid.IntRange(1, 2).Draw(t, "nrepl")
 			for i := 0; i < k; i++ {
@@ -557,6 +656,69 @@ func c14Gen(it *c14Item) *rapid.Generator[c14Case] {
 		}
 		return c
 	})
+}
+
+// c14SparseFill runs the fill of one item with all draws zero and the given mask bits set.
+func c14SparseFill(it *c14Item, bitsByCall map[int][]int) *c14Rec {
+	rec := &c14Rec{sparse: true, bits: bitsByCall}
+	x := it.New()
+	c14Fill(x, rec)
+	if fn, ok := x.(c14Fn); ok {
+		rec.noNegZero = true
+		_, _ = fn.FillRandomResultTL1(c14NewRG(rec), nil)
+	}
+	return rec
+}
+
+const c14SparseCap = 96 // enumerated sparse cases per item
+
+// c14SparseCases enumerates, without any randomness: the all-default value; for every fields mask the
+// fill asks for (arguments first, then the function result) every single known bit alone; for small top
+// masks every pair of bits; and one level deeper: for every single bit, every single bit of the masks
+// that only appear once that bit is set. Everything else stays default/empty, so a zero-width
+// (true-type) field is the last present thing in the object.
+func c14SparseCases(it *c14Item) (cases []c14Case, bitsEnumerated int) {
+	add := func(desc string, rec *c14Rec) {
+		if len(cases) < c14SparseCap {
+			cases = append(cases, c14Case{Fam: it.Fam, Item: it.Name, Tape: rec.tape, TagXor: 1, Sparse: desc})
+		}
+	}
+	dry := c14SparseFill(it, nil)
+	add("zero", dry)
+	if it.Enum {
+		return cases, 0
+	}
+	for c, known := range dry.knowns {
+		n := bits.OnesCount32(known)
+		for o := 0; o < n; o++ {
+			rec := c14SparseFill(it, map[int][]int{c: {o}})
+			add(fmt.Sprintf("c%d:b%d", c, bits.TrailingZeros32(c14NthBit(known, o))), rec)
+			bitsEnumerated++
+			// masks that exist only because this bit is set (nested optional structs)
+			if extra := len(rec.knowns) - len(dry.knowns); extra > 0 && len(cases) < c14SparseCap {
+				// the new masks follow call c (possibly after masks of fields in between: harmless)
+				for c2 := c + 1; c2 <= c+extra+2 && c2 < len(rec.knowns); c2++ {
+					known2 := rec.knowns[c2]
+					for o2 := 0; o2 < bits.OnesCount32(known2) && o2 < 8; o2++ {
+						rec2 := c14SparseFill(it, map[int][]int{c: {o}, c2: {o2}})
+						add(fmt.Sprintf("c%d:b%d/c%d:b%d", c, bits.TrailingZeros32(c14NthBit(known, o)), c2, bits.TrailingZeros32(c14NthBit(known2, o2))), rec2)
+					}
+				}
+			}
+		}
+	}
+	if len(dry.knowns) > 0 {
+		known := dry.knowns[0]
+		if n := bits.OnesCount32(known); n >= 2 && n <= 9 {
+			for o1 := 0; o1 < n; o1++ {
+				for o2 := o1 + 1; o2 < n; o2++ {
+					rec := c14SparseFill(it, map[int][]int{0: {o1, o2}})
+					add(fmt.Sprintf("c0:b%d+b%d", bits.TrailingZeros32(c14NthBit(known, o1)), bits.TrailingZeros32(c14NthBit(known, o2))), rec)
+				}
+			}
+		}
+	}
+	return cases, bitsEnumerated
 }
 
 // ---------- the property ----------
@@ -725,6 +887,20 @@ func c14PropObj(t vpT, it *c14Item, c c14Case) (nontrivial bool, classes []strin
 	}
 	if len(b1)%4 != 0 {
 		t.Fatalf("%s: TL1 encoding is %d bytes, not a multiple of 4: %s", name, len(b1), c14Hex(b1))
+	}
+	if c.Sparse != "" {
+		cls["sparse"] = true
+		single := strings.HasPrefix(c.Sparse, "c") && !strings.ContainsAny(c.Sparse, "+/")
+		if single {
+			cls["sparse-single-bit"] = true
+			// everything but one mask bit is default: if the encoding is as long as the all-default one, the
+			// bit stands for a zero-width (true-type) field, which is then the last present thing in the object
+			x0 := it.New()
+			c14Fill(x0, &c14Play{})
+			if b0 := c14Write(t, x0, name); len(b0) == len(b1) && !bytes.Equal(b0, b1) {
+				cls["true-type-last-present"] = true
+			}
+		}
 	}
 	jx := x.String()
 	y := it.New()
@@ -909,6 +1085,16 @@ func c14PropObj(t vpT, it *c14Item, c c14Case) (nontrivial bool, classes []strin
 		if bj := c14Write(t, z, name); !negz && !bytes.Equal(bj, b1) {
 			t.Fatalf("%s: JSON round trip changed the value (first diff at TL1 byte %d)\njson=%s\nback=%s\nb1=%s\nbj=%s", name, c14FirstDiff(b1, bj), c14Short(string(j)), c14Short(z.String()), c14Hex(b1), c14Hex(bj))
 		}
+		if !negz {
+			if jz := z.String(); jz != jx {
+				t.Fatalf("%s: the value decoded from JSON renders differently\nwant=%s\ngot =%s", name, c14Short(jx), c14Short(jz))
+			}
+			if !it.Enum {
+				if d := c14DeepEq(reflect.ValueOf(y), reflect.ValueOf(z), name); d != "" {
+					t.Fatalf("%s: the object decoded from JSON differs from the one decoded from TL1 at %s\njson=%s", name, d, c14Short(string(j)))
+				}
+			}
+		}
 		mj, err := x.MarshalJSON()
 		if err != nil {
 			t.Fatalf("%s: MarshalJSON failed: %v", name, err)
@@ -936,6 +1122,18 @@ func c14PropObj(t vpT, it *c14Item, c c14Case) (nontrivial bool, classes []strin
 		}
 		if bz := c14Write(t, z, name); !negz && !bytes.Equal(bz, b1) {
 			t.Fatalf("%s: TL2 round trip changed the value (first diff at TL1 byte %d)\nx=%s\nz=%s\ntl2=%s", name, c14FirstDiff(b1, bz), c14Short(jx), c14Short(z.String()), c14Hex(t2))
+		}
+		// the TL2-decoded object must be the same value as the TL1-decoded one: a field lost by the TL2
+		// leg only (presence bytes, true-type fields that occupy no TL1 bytes) shows here
+		if !negz {
+			if jz := z.String(); jz != jx {
+				t.Fatalf("%s: the value decoded from TL2 differs from the one decoded from TL1 (JSON view)\ntl1=%s\ntl2=%s\nbytes=%s", name, c14Short(jx), c14Short(jz), c14Hex(t2))
+			}
+			if !it.Enum {
+				if d := c14DeepEq(reflect.ValueOf(y), reflect.ValueOf(z), name); d != "" {
+					t.Fatalf("%s: the object decoded from TL2 differs from the one decoded from TL1 at %s\nx=%s\ntl2=%s", name, d, c14Short(jx), c14Hex(t2))
+				}
+			}
 		}
 		if t2b := z.(c14TL2).WriteTL2(nil, &basictl.TL2WriteContext{}); !negz && !bytes.Equal(t2b, t2) {
 			t.Fatalf("%s: TL2 re-encoding differs\nt2 =%s\nt2b=%s", name, c14Hex(t2), c14Hex(t2b))
@@ -989,6 +1187,9 @@ func c14PropObj(t vpT, it *c14Item, c c14Case) (nontrivial bool, classes []strin
 			if err != nil || len(rest) != 0 {
 				t.Fatalf("%s: result: TL2->TL1 failed: %v (rest %d)\ntl2=%s", name, err, len(rest), c14Hex(rt2))
 			}
+			if _, rj2, err := f2.ReadResultTL2WriteResultJSON(&basictl.TL2ReadContext{}, &basictl.JSONWriteContext{}, rt2, nil); err != nil || !bytes.Equal(rj2, rj) {
+				t.Fatalf("%s: result: the value decoded from TL2 differs from the one decoded from TL1 (JSON view, err=%v)\ntl1=%s\ntl2=%s", name, err, c14Short(string(rj)), c14Short(string(rj2)))
+			}
 			if !bytes.Equal(res1, res3) {
 				t.Fatalf("%s: result: TL1->TL2->TL1 changed the value (first diff at byte %d)\nr1=%s\nr3=%s\ntl2=%s", name, c14FirstDiff(res1, res3), c14Hex(res1), c14Hex(res3), c14Hex(rt2))
 			}
@@ -1032,12 +1233,27 @@ func c14Index(items []c14Item) map[string]*c14Item {
 func c14RunFamily(t *testing.T, sub string, items []c14Item, total int) {
 	ev := vpNewEv(t, "C14", sub)
 	covered := 0
+	bitsEnumerated, sparseCases := 0, 0
 	withNontrivial := 0
 	var neverNontrivial []string
 	for i := range items {
 		it := &items[i]
 		ran, nt := 0, 0
 		t.Run(strings.ReplaceAll(it.Name, "/", "_"), func(t *testing.T) {
+			sc, nbits := c14SparseCases(it)
+			bitsEnumerated += nbits
+			sparseCases += len(sc)
+			for _, c := range sc {
+				c := c
+				vpRunCase(t, "C14", sub, c, func() {
+					n, cls := c14PropObj(t, it, c)
+					ev.Case(n, c, cls...)
+					ran++
+					if n {
+						nt++
+					}
+				})
+			}
 			rapid.Check(t, func(rt *rapid.T) {
 				c := c14Gen(it).Draw(rt, "case")
 				vpRunCase(rt, "C14", sub, c, func() {
@@ -1064,6 +1280,8 @@ func c14RunFamily(t *testing.T, sub string, items []c14Item, total int) {
 	}
 	ev.Extra("items_total", total)
 	ev.Extra("items_covered", covered)
+	ev.Extra("sparse_item_x_bit_enumerated", bitsEnumerated) // (item, fields mask, single bit) triples, each a case
+	ev.Extra("sparse_cases_enumerated", sparseCases)         // incl. all-default, pairs and nested bits
 	ev.Extra("items_with_nontrivial_value", withNontrivial)
 	if len(neverNontrivial) > 40 {
 		neverNontrivial = append(neverNontrivial[:40], "...")
